@@ -451,6 +451,15 @@ func c50Prop(c c50Case, r *vp.Rec) error {
 
 	a, errA := p.ToASCII(in)
 	u, errU := p.ToUnicode(in)
+	if c.Base == "Punycode" {
+		// the package-level functions are documented as Punycode.ToASCII / ToUnicode
+		if a2, e2 := ToASCII(in); a2 != a || (e2 == nil) != (errA == nil) {
+			return fmt.Errorf("idna.ToASCII(%q) = %q, %v but Punycode.ToASCII gives %q, %v", in, a2, e2, a, errA)
+		}
+		if u2, e2 := ToUnicode(in); u2 != u || (e2 == nil) != (errU == nil) {
+			return fmt.Errorf("idna.ToUnicode(%q) = %q, %v but Punycode.ToUnicode gives %q, %v", in, u2, e2, u, errU)
+		}
+	}
 
 	// clause 1
 	labels := c50Classify(mk, in)
